@@ -37,6 +37,7 @@ def setup(ctx):
         "for relative, empty, upper-case-scheme, oversize or otherwise malformed targets either an error or the unchanged 3x is accepted",
         "a 'loop-free chain of at most max_redirects redirects' counts redirects, so it needs max_redirects+1 connections",
     ]
+    ctx.require("monitor", "concurrent_fetches", 30)
     ctx.require("monitor", "fetches", 300)
     ctx.require("monitor", "connections_logged", 500)
     ctx.require("monitor", "verify_calls", 500)
@@ -329,6 +330,79 @@ def random_graph(rng, world):
     return nodes, edges, nodes[0], f"random-N{n}"
 
 
+def run_concurrent(ctx, world):
+    """Several redirect-following fetches in flight at once on ONE client: each keeps its own redirect count and
+    loop history (chains within the limit are followed to the end, cycles and over-long chains stop in time)."""
+    import asyncio
+    import tempfile
+
+    from nauyaca.client.session import GeminiClient
+
+    P = world.servers[0].port
+    H = "127.0.0.1"
+
+    def u(name):
+        return f"gemini://{H}:{P}/{name}"
+
+    for mr in (1, 3, 5):
+        world.table.clear()
+        fams = {}
+        # four loop-free chains of exactly mr redirects (must be followed), one of mr+1 (must stop), a 2-cycle and a self-loop
+        for f in "abcd":
+            for i in range(mr):
+                world.table[(0, f"/{f}{i}")] = f"3{i % 2} {u(f'{f}{i + 1}')}\r\n".encode()
+            world.table[(0, f"/{f}{mr}")] = b"20 text/gemini\r\nend of chain " + f.encode() + b"\n"
+            fams[f] = ("chain-at-limit", mr + 1)
+        for i in range(mr + 1):
+            world.table[(0, f"/e{i}")] = f"31 {u(f'e{i + 1}')}\r\n".encode()
+        world.table[(0, f"/e{mr + 1}")] = b"20 text/gemini\r\ntoo far\n"
+        fams["e"] = ("chain-over-limit", mr + 1)
+        world.table[(0, "/x0")] = f"30 {u('x1')}\r\n".encode()
+        world.table[(0, "/x1")] = f"30 {u('x0')}\r\n".encode()
+        fams["x"] = ("cycle", mr + 1)
+        world.table[(0, "/s0")] = f"31 {u('s0')}\r\n".encode()
+        fams["s"] = ("self-loop", mr + 1)
+        for order in (["a", "x", "b", "e", "c", "s", "d"], ["x", "a", "s", "b", "e", "c", "d"], ["e", "a", "b", "c", "d", "x", "s"]):
+            tmp = tempfile.mkdtemp(prefix="vf-c16c-")
+            marks = world.log_marks()
+
+            async def one(client, f, delay):
+                await asyncio.sleep(delay)
+                try:
+                    r = await client.get(u(f + "0"))
+                    return ("response", r.status, (r.body or "")[:30] if isinstance(r.body, str) else None)
+                except BaseException as e:  # noqa: BLE001
+                    return ("error", type(e).__name__, str(e)[:80])
+
+            async def go():
+                c = GeminiClient(timeout=8, max_redirects=mr, trust_on_first_use=True, tofu_db_path=Path(os.path.join(tmp, "t.db")))
+                return await asyncio.gather(*[one(c, f, 0.004 * i) for i, f in enumerate(order)])
+
+            try:
+                results = asyncio.run(go())
+            finally:
+                shutil.rmtree(tmp, ignore_errors=True)
+            for srv in world.servers:
+                srv.wait_idle(3)
+            conns = world.connections_since(marks)
+            for f, res in zip(order, results):
+                kind, bound = fams[f]
+                mine = [c for c in conns if c[1] and f"/{f}".encode() in c[1] and c[1].split(b"/")[-1][:1] == f.encode()]
+                ctx.count("monitor", "concurrent_fetches")
+                wit = {"level": "concurrent", "max_redirects": mr, "in_flight_together": order, "this_fetch": f + "0", "shape": kind, "result": res, "connections_of_this_fetch": len(mine)}
+                if kind == "chain-at-limit":
+                    if res[0] != "response" or res[1] != 20:
+                        ctx.violation("concurrent:chain-within-limit-not-followed", f"a loop-free chain of {mr} redirects (limit {mr}) was not followed to its end while other fetches ran on the same client", wit)
+                    elif len(mine) != mr + 1:
+                        ctx.violation("concurrent:connection-count", f"chain of {mr} redirects took {len(mine)} connections", wit)
+                else:
+                    if res[0] == "response" and res[1] == 20:
+                        ctx.violation(f"concurrent:{kind}:followed", f"{kind} ended in a success response", wit)
+                    if len(mine) > bound:
+                        ctx.violation(f"concurrent:{kind}:too-many-connections", f"{kind} opened {len(mine)} connections, bound is max_redirects + 1 = {bound}", wit)
+            ctx.case(("concurrent", mr, tuple(order), tuple(r[0] for r in results)), True, sample={"max_redirects": mr, "order": order, "results": [list(r) for r in results]})
+
+
 def run(ctx):
     rng = ctx.rng("c16")
     world = World()
@@ -352,6 +426,8 @@ def run(ctx):
                             continue
                     run_graph(ctx, world, nodes, edges, start, mr, follow, label)
         ctx.count("exhaustive_scope", f"{len(graphs)} graphs x max_redirects 0..6" + (" (all-N2 sampled 1/9)" if ctx.quick() else ""))
+        if ctx.shard == 0 or ctx.nshards == 1:
+            run_concurrent(ctx, world)
         n = ctx.pick(160, 6000) // ctx.nshards
         for i in range(n):
             nodes, edges, start, label = random_graph(rng, world)
